@@ -223,7 +223,11 @@ func HandleMessages(startTime time.Time, reader io.Reader, writer io.Writer, con
 	writer.Write([]byte("18 seconds ahead of UTC\n\n"))
 
 	messageChan := make(chan rtcm.Message, 2)
-	go DisplayMessages(messageChan, writer)
+	displayDone := make(chan struct{})
+	go func() {
+		defer close(displayDone)
+		DisplayMessages(messageChan, writer)
+	}()
 
 	channels := make([]chan rtcm.Message, 0)
 	channels = append(channels, messageChan)
@@ -231,6 +235,10 @@ func HandleMessages(startTime time.Time, reader io.Reader, writer io.Writer, con
 	appCore.HandleMessagesUntilEOF(startTime, bufferedReader)
 
 	close(messageChan)
+
+	// Wait until the last message has been written.  (The caller may
+	// exit as soon as this function returns.)
+	<-displayDone
 }
 
 // DisplayMessages receives messages from the given channel, produces a
